@@ -1549,6 +1549,12 @@ func (r *Raft) appendEntries(rpc RPC, a *AppendEntriesRequest) {
 					r.logger.Error("failed to clear log suffix", "error", err)
 					return
 				}
+				// The cached last log entry is gone from the store; if the
+				// append below fails it must not stay behind.
+				if err := r.reloadLastLog(); err != nil {
+					r.logger.Error("failed to reload last log", "error", err)
+					return
+				}
 				if entry.Index <= r.configurations.latestIndex {
 					r.setLatestConfiguration(r.configurations.committed, r.configurations.committedIndex)
 				}
@@ -1566,8 +1572,6 @@ func (r *Raft) appendEntries(rpc RPC, a *AppendEntriesRequest) {
 			// Append the new entries
 			if err := r.logs.StoreLogs(newEntries); err != nil {
 				r.logger.Error("failed to append to logs", "error", err)
-				// TODO: leaving r.getLastLog() in the wrong
-				// state if there was a truncation above
 				return
 			}
 
